@@ -15,11 +15,11 @@ for n in "$@"; do
   rm -f $WT/DELIVER; ln -s $D $WT/DELIVER
   CMD=$(python3 -c "import json,re;c=json.load(open('$D/meta.json'))['demo_cmd'];print(re.sub(r'CARGO_TARGET_DIR=\S+','CARGO_TARGET_DIR=$WT/target',c))")
   echo "cmd=$CMD" >> $L
-  (cd $WT && eval "$CMD") > $D/demo_without.log 2>&1; echo "DEMO_WITHOUT_PATCH exit=$?" >> $L
+  mkdir -p $WT/processor/tests $WT/core/tests $WT/assembly/tests $WT/air/tests; (cd $WT && eval "$CMD") > $D/demo_without.log 2>&1; echo "DEMO_WITHOUT_PATCH exit=$?" >> $L
   git checkout -q -- . ; git clean -fdq -e target -e DELIVER
   git apply $D/patch.diff >> $L 2>&1; echo "APPLY exit=$?" >> $L
   CARGO_TARGET_DIR=$WT/target cargo nextest run --workspace --no-fail-fast --test-threads 8 --offline > $D/suite_with.log 2>&1; echo "SUITE_WITH_PATCH exit=$? $(grep -E 'Summary' $D/suite_with.log | tail -1)" >> $L
-  (cd $WT && eval "$CMD") > $D/demo_with.log 2>&1; echo "DEMO_WITH_PATCH exit=$?" >> $L
+  mkdir -p $WT/processor/tests $WT/core/tests $WT/assembly/tests $WT/air/tests; (cd $WT && eval "$CMD") > $D/demo_with.log 2>&1; echo "DEMO_WITH_PATCH exit=$?" >> $L
   git checkout -q -- . ; git clean -fdq -e target -e DELIVER
   grep -E "^(DEMO_|SUITE_|APPLY)" $L
 done
